@@ -31,7 +31,8 @@ Max(a, b) == IF a > b THEN a ELSE b
 Min(a, b) == IF a < b THEN a ELSE b
 RECURSIVE Pow2(_)
 Pow2(n) == IF n <= 0 THEN 1 ELSE 2 * Pow2(n - 1)
-Add(v, x) == IF Len(v) >= 24 THEN v ELSE Append(v, x)
+\* the cap is per rule (x[2]): a flood of one rule (say Q2, which another check owns) must not crowd out the others
+Add(v, x) == IF Len(SelectSeq(v, LAMBDA e : e[2] = x[2])) >= 6 THEN v ELSE Append(v, x)
 RECURSIVE AddAll(_, _)
 AddAll(v, xs) == IF xs = <<>> THEN v ELSE AddAll(Add(v, Head(xs)), Tail(xs))
 Flush == viol = <<>> \/ PrintT(<<"RUNVIOL", ToJson([run |-> run, viol |-> viol])>>)
